@@ -84,6 +84,7 @@ func C01(c *core.Ctx) {
 	emit(c, a.StdoutCarriesOnlyCode())
 	ruleBErr(c, a, func(s *engb.ErrSite) bool { return s.Callee == "go/format.Source" })
 	ruleImportSet(c)
+	ruleDeclSet(c)
 	// identifiers: what Identifierize makes of every class of text is a valid Go identifier (shared with C14)
 	ruleIdent(c)
 	// several files: the emitted packages compile together (no self-import, no unused or missing import, no duplicate declaration)
